@@ -938,7 +938,7 @@ def run(repo, chk):
 
             def ch(name, node, args, kwargs, st, ex, recv, a=a):
                 meth = node.func.attr if isinstance(node.func, ast.Attribute) else None
-                if meth == "lower" and isinstance(recv, Opaque) and recv.key == 3:
+                if meth == "lower" and isinstance(recv, Opaque) and (recv.key == 3 or (recv.key is None and re.search(r"\[3\]$", recv.text))):
                     return a                       # clause grammar: CONJ TYPE ID ATTRIBUTE ... -- the 4th token is the attribute
                 if meth == "upper" and isinstance(recv, Opaque):
                     return recv
@@ -1281,4 +1281,5 @@ WITNESSES = [
     dict(name='silent-order-line-percent-formatting', file=IO, old="        f.write(entry_int.format('ORDER', 'BULK', int(wn.options.reaction.bulk_order)).encode(sys_default_enc))", new="        f.write((' %s %s %d\\n' % ('ORDER', 'BULK', int(wn.options.reaction.bulk_order))).encode(sys_default_enc))", silent=True),
     dict(name='silent-read-sections-dispatched-from-a-name-table', file=IO, old='            self._read_mixing()\n            self._read_report()\n            self._read_vertices()\n            self._read_labels()\n', new="            for section in ('mixing', 'report', 'vertices', 'labels'):\n                getattr(self, '_read_' + section)()\n", silent=True),
     dict(name='mixing-section-no-longer-read', file=IO, old='            self._read_mixing()\n            self._read_report()\n', new='            self._read_report()\n', rule='R-C12-1'),
+    dict(name='silent-rule-then-clause-unpacked-tokens-param-selected-then-converted', file=IO, old="            link = model.get_link(words[2])\n            attr = words[3].lower()\n            value = ValueCondition._parse_value(words[5])\n            if attr.lower() in ['demand']:\n                value = to_si(self.inp_units, value, HydParam.Demand)\n            elif attr.lower() in ['head', 'level']:\n                value = to_si(self.inp_units, value, HydParam.HydraulicHead)\n            elif attr.lower() in ['flow']:\n                value = to_si(self.inp_units, value, HydParam.Flow)\n            elif attr.lower() in ['pressure']:\n                value = to_si(self.inp_units, value, HydParam.Pressure)\n            elif attr.lower() in ['setting']:\n                if isinstance(link, Valve):\n                    if link.valve_type.upper() in ['PRV', 'PBV', 'PSV']:\n                        value = to_si(self.inp_units, value, HydParam.Pressure)\n                    elif link.valve_type.upper() in ['FCV']:\n                        value = to_si(self.inp_units, value, HydParam.Flow)\n            then_acts.append(ControlAction(link, attr, value))", new="            _kw, _typ, link_name, attr_txt, _eq, value_txt = words[:6]\n            link = model.get_link(link_name)\n            attr = attr_txt.lower()\n            raw = ValueCondition._parse_value(value_txt)\n            param = None\n            if attr in ('demand',):\n                param = HydParam.Demand\n            elif attr in ('head', 'level'):\n                param = HydParam.HydraulicHead\n            elif attr == 'flow':\n                param = HydParam.Flow\n            elif attr == 'pressure':\n                param = HydParam.Pressure\n            elif attr == 'setting' and isinstance(link, Valve):\n                vt = link.valve_type.upper()\n                if vt in ('PRV', 'PBV', 'PSV'):\n                    param = HydParam.Pressure\n                elif vt == 'FCV':\n                    param = HydParam.Flow\n            value = raw if param is None else to_si(self.inp_units, raw, param)\n            then_acts.append(ControlAction(link, attr, value))", silent=True),
 ]
